@@ -19,7 +19,7 @@ from ..report import Run
 from ..symreal.pool import run_catalogue
 from ..catalog import tensor_ops, nn_ops
 
-REPO = "/repo/synapgrad"
+REPO = os.path.join(os.environ.get("VERIF_REPO", "/repo"), "synapgrad")
 FILES = ["cpu_ops.py", "conv_tools.py", "functional.py", "nn/functional.py", "nn/layers.py", "nn/losses.py", "nn/activations.py", "tensor.py"]
 
 ALLOC_CALLS = {"zeros", "ones", "empty", "full", "zeros_like", "ones_like", "empty_like", "full_like", "copy", "array", "pad", "stack", "concatenate",
